@@ -268,7 +268,7 @@ def floors(tier):
     gs = [(), ('n_word',), ('n_frac',), ('n_frac', 'n_int'), ('n_word', 'n_int')]
     return [('given', g, sa) for g in gs for sa in (None, True, False)] + [('capped', True), ('capped', False), ('capped_configured_maximum', True),
                                                                          ('mixed_int_float_container', 'list'), ('mixed_int_float_container', 'tuple'), ('object-array-numpy-scalars',), ('raw-with-fraction-length',),
-                                                                         ('complex-input', False), ('complex-input', True), ('like-with-n_int-and-signedness',), ('fixed-point-input',)]
+                                                                         ('complex-input', False), ('complex-input', True), ('like-with-n_int-and-signedness',), ('fixed-point-input',), ('negative-n_int-with-one-size',)]
 
 
 # ------------------------------------------------------------------------------------------ workload
@@ -414,6 +414,16 @@ def run_case(case, ctx):
                 ib2 = int_bits(vals, sg2)
                 _try(lambda: Fxp(val, like=tmpl_, signed=sg2, n_word=ib2 + nfe + (1 if sg2 else 0), n_int=ib2))
                 _try(lambda: Fxp(val, like=tmpl_, signed=sg2, n_frac=nfe, n_int=ib2))
+            # a NEGATIVE integer length given with the fraction length (values below one half): the word follows arithmetically, n_word = n_int + n_frac + sign
+            for _ in range(2):
+                fneg = rng.randint(4, 12)
+                nin_ = -rng.randint(1, fneg - 2)
+                kneg = rng.randint(1, 2 ** (fneg + nin_) - 1)
+                vneg = float(F(kneg, 2 ** fneg)) * (1 if nonneg or rng.random() < 0.5 else -1)
+                _try(lambda: Fxp(vneg, n_int=nin_, n_frac=fneg, **kw))
+                _try(lambda: Fxp([vneg, 0.0], n_int=nin_, n_frac=fneg, **kw))
+                _try(lambda: Fxp(vneg, n_word=fneg + nin_ + (0 if sg is False else 1), n_int=nin_, **kw))
+            ctx.floor_hit(('negative-n_int-with-one-size',))
             # complex inputs are sized for both components: values, and raw codes whose fraction length the configured maximum shortens
             cre, cim = vals[0], dyadic_value(rng, nonneg)
             _try(lambda: Fxp(complex(float(cre), float(cim)), **kw))
